@@ -73,7 +73,7 @@ class _Chk(object):
 
     def viol(self, tag, text):
         self.failed = True
-        self.acc.violation("C18/%s/%s" % (self.fam, tag), "%s: %s" % (self.name, text), self.case)
+        self.acc.violation("C18/%s/%s" % (self.fam, tag), "%s: %s" % (self.name, text), self.case, size=len(repr(self.case)))
 
     def calls(self, calls, want_rf=None):
         """every recorded Integer.random / random_range call must be in bounds and equal the reference"""
